@@ -58,6 +58,13 @@ type statOut struct {
 func sysH(s *simrt.Sim, t *simrt.Task, r *simrt.Req) simrt.Status {
 	k := kernelOf(s)
 	op := int(r.I3)
+	if k.Quiet {
+		fq := ""
+		ret, errno, _ := k.exec(op, r, -1, &fq)
+		r.R0, r.E = ret, int64(errno)
+		s.Ev(t, "quiet-"+opNames[op], ret, int64(errno))
+		return simrt.Done
+	}
 	n := k.nsys
 	k.nsys++
 	var ret int64
